@@ -392,3 +392,7 @@ for _pid in ("C08", "C09", "C01", "C02"):
     SPECS[_pid]["contracts"] += [k for k in _CTORS if k not in SPECS[_pid]["contracts"]]
 SPECS["C09"]["contracts"].append("smpl_extract.alcohol.mdx:MdxStream")
 SPECS["C08"]["level_text"] += ". Added: the constructors establish what the read/seek contracts assume of a view (sector size, length = sectors x size, rewound, arguments kept)"
+# C03 quantifies over cue sheets: the sheet's reading (C17's parser contracts and the cosmetics monitor) is part of what it depends on
+SPECS["C03"]["contracts"] += ["smpl_extract.cuesheet:get_nonempty_entry", "smpl_extract.cuesheet:CueSheetTrackAdapter.parse",
+                              "smpl_extract.cuesheet:CueSheetFileAdapter.parse", "smpl_extract.cuesheet:parse_cue_sheet"]
+SPECS["C03"]["bounded"].append(("contracts.cuesheet", "bounded:cue_cosmetics"))
